@@ -55,6 +55,7 @@ type c02Query struct {
 	TCP    bool   `json:"tcp,omitempty"`
 	RD     bool   `json:"rd,omitempty"` // header bits a reply copies from its query
 	CD     bool   `json:"cd,omitempty"`
+	EVer   uint8  `json:"edns_version,omitempty"` // EDNS version of the OPT record (0 = the supported one)
 }
 
 func (q c02Query) Msg() *dns.Msg {
@@ -71,6 +72,9 @@ func (q c02Query) Msg() *dns.Msg {
 		o.SetUDPSize(sz)
 		if q.DO {
 			o.SetDo()
+		}
+		if q.EVer != 0 {
+			o.SetVersion(q.EVer)
 		}
 		if q.Cookie {
 			o.Option = append(o.Option, &dns.EDNS0_COOKIE{Code: dns.EDNS0COOKIE, Cookie: "0123456789abcdef"})
